@@ -237,6 +237,14 @@ func (h *Hub) connectFoundService(remoteService *api.ServiceDetails, host, port,
 		return errors.New("hub is shut down")
 	}
 
+	// the same goes for a service that was unregistered, or whose pairing was cancelled, while
+	// the dial was on its way: there was no connection yet that could have been closed then
+	pairingState := h.ServiceForSKI(remoteService.SKI()).ConnectionStateDetail().State()
+	if !h.IsRemoteServiceForSKIPaired(remoteService.SKI()) && pairingState != api.ConnectionStateQueued {
+		shipConnection.CloseConnection(false, 0, "")
+		return nil
+	}
+
 	return nil
 }
 
